@@ -20,7 +20,7 @@ func cancelStress(n int) {
 	}
 	for i := 0; i < n; i++ {
 		user := fmt.Sprintf("st%06d", i)
-		cfg := clientCommonTOML(ps.Bind, ps.Token, user, "tcp", true, false, 0, cliTLS{Enable: i%2 == 0}, false)
+		cfg := clientCommonTOML(ps.Bind, ps.clientAuth(), user, "tcp", true, false, 0, cliTLS{Enable: i%2 == 0}, false)
 		cli, err := h.StartClientText(prop, cfg)
 		if err != nil {
 			fmt.Fprintln(os.Stderr, err)
